@@ -71,6 +71,13 @@ fn fingerprint(g: &Graph<u32, u32>, weighted: bool, x: u32) -> String {
             Ok(m) => { let mut v: Vec<(u32, u64)> = m.into_iter().map(|(k, x)| (k, x.to_bits())).collect(); v.sort(); format!("{:?}", v) }
         }
     };
+    // invalid calls: which error is reported must not depend on the schedule either (an absent source among valid ones;
+    // on the copy with a negative weight, searches that fail with ContradictoryPaths next to an absent source)
+    let mut with_absent = names.clone();
+    with_absent.insert(names.len() / 2, 9999);
+    out.push_str(&canon_pairs(dijkstra::multi_source(g, weighted, with_absent, None, None, false, true)));
+    out.push('#');
+    out.push_str(&canon_pairs(dijkstra::all_pairs(g, weighted, Some(9999), None, false, true)));
     for norm in [false, true] {
         out.push('#');
         out.push_str(&fmap(betweenness::betweenness_centrality(g, weighted, norm)));
@@ -86,6 +93,26 @@ pub fn observe(c: &Case) -> String {
         Err(e) => return format!("i.build=E{}", err_code(&e.kind)),
     };
     let x = c.g.nodes.get(c.g.nodes.len() / 2).copied().unwrap_or(0);
+    // a copy whose last weighted edge is strongly negative: weighted searches that come across it fail
+    let g_neg: Option<Graph<u32, u32>> = if c.weighted {
+        let mut gc = c.g.clone();
+        match gc.edges.iter().rposition(|e| e.2.is_some()) {
+            Some(i) => { gc.edges[i].2 = Some(-60); gc.build().ok() }
+            None => None,
+        }
+    } else { None };
+    let fingerprint = |g: &Graph<u32, u32>, weighted: bool, x: u32| -> String {
+        let mut fp = fingerprint(g, weighted, x);
+        if let Some(gn) = &g_neg {
+            let names: Vec<u32> = gn.get_all_node_names().into_iter().copied().collect();
+            let mut with_absent = names.clone();
+            with_absent.push(9999);
+            let cls = |r: Result<std::collections::HashMap<u32, std::collections::HashMap<u32, graphrs::algorithms::shortest_path::ShortestPathInfo<u32>>>, graphrs::Error>| match r { Ok(m) => format!("ok{}", m.len()), Err(e) => format!("E{}", err_code(&e.kind)) };
+            fp.push_str(&format!("#neg:{}:{}:{}", cls(dijkstra::multi_source(gn, true, names, None, None, false, true)),
+                cls(dijkstra::multi_source(gn, true, with_absent, None, None, false, true)), cls(dijkstra::all_pairs(gn, true, None, None, false, true))));
+        }
+        fp
+    };
     let serial = rayon::ThreadPoolBuilder::new().num_threads(1).build().unwrap().install(|| fingerprint(&g, c.weighted, x));
     let mut diffs: Vec<String> = vec![];
     for k in &c.pools {
